@@ -17,7 +17,9 @@ from harness.props.c08 import dump_to_schema
 
 ID = "C17"
 TIE_MODULES = ["StathamModel.Tie"]
-ASSUMPTIONS = ["class names are not part of equality (documented); serializations are compared with titles and $ref targets of equal classes identified"]
+from harness.props.c18 import unique_class_names  # noqa: E402
+
+ASSUMPTIONS = ["model classes have unique names within one tree (the serializers' documented assumption)", "class names are not part of equality (documented); serializations are compared with titles and $ref targets of equal classes identified"]
 N_PAIRS = {"quick": 900, "thorough": 30000}
 
 
@@ -332,7 +334,9 @@ def run(ctx, scale=1.0):
     try:
         vg, dg = ValueGen(rng), dsl.DumpGen(rng)
         for i in range(int(N_PAIRS[ctx["tier"]] * scale)):
-            da = dg.dump(3)
+            # class names unique within a tree: the serializers key definitions by name (their documented assumption;
+            # two different classes under one name are C03's finding, not an equality matter)
+            da = unique_class_names(dg.dump(3))
             values = vg.values(dump_to_schema(da), 5) + [1, True, 1.0, [True], [1], {"a": True}, {"a": 1}, 0, False]
             if i % 5 == 0:
                 check_pair(drv, da, copy.deepcopy(da), "identical", values, out, stats)
